@@ -87,6 +87,9 @@ class C06(Check):
     def _function_level(self, ctx, B, failures, broken):
         wntr = vlib.import_wntr()
         rng = ctx.rng
+        K.probe_mode()
+        for name, detail in K.PROBE_BROKEN:
+            broken.append(Broken("correspondence", name, detail))
         nt = 12 if ctx.quick else 60
         for k in range(nt):
             p = K.synthetic_tank(rng)
@@ -95,7 +98,12 @@ class C06(Check):
             tid = B.new_tank(p)
             kindname = "curve" if p["curve"] else "cyl"
             for c in K.synthetic_upd_cases(rng, p, 25 if ctx.quick else 60):
-                out = K.real_upd(wntr, wn, tank, c)
+                out, err = K.safe_call(K.real_upd, wntr, wn, tank, c)
+                if err:
+                    ctx.count("direct-call-exception")
+                    if not any(b.name == "update_tank_heads (direct call)" for b in broken):
+                        broken.append(Broken("correspondence", "update_tank_heads (direct call)", "%s on %s tank=%s" % (err, c, p)))
+                    continue
                 ctx.case(("upd", kindname, c["prev"], c["demand"], c["dt"]))
                 ctx.count("upd-direct:" + kindname)
 
@@ -106,7 +114,12 @@ class C06(Check):
 
                 B.ask(K.upd_line(tid, c), cb)
             for c in K.synthetic_lvl_cases(rng, p, 25 if ctx.quick else 60):
-                rec = K.real_lvl(wntr, tank, c)
+                rec, err = K.safe_call(K.real_lvl, wntr, tank, c)
+                if err:
+                    ctx.count("direct-call-exception")
+                    if not any(b.name == "TankLevelCondition.evaluate (direct call)" for b in broken):
+                        broken.append(Broken("correspondence", "TankLevelCondition.evaluate (direct call)", "%s on %s tank=%s" % (err, c, p)))
+                    continue
                 ctx.case(("lvl", kindname, c["kind"], c["attr"], c["rel"], c["thr"], c["head"]))
                 ctx.count("lvl-direct:%s:%s" % (kindname, c["kind"]))
                 if rec["raised"]:
@@ -122,7 +135,12 @@ class C06(Check):
             # get_volume
             for _ in range(4):
                 l = rng.uniform(p["min"] - 0.5, p["max"] + 0.5)
-                v = float(tank.get_volume(l))
+                v, err = K.safe_call(lambda: float(tank.get_volume(l)))
+                if err:
+                    ctx.count("direct-call-exception")
+                    if not any(b.name == "Tank.get_volume (direct call)" for b in broken):
+                        broken.append(Broken("correspondence", "Tank.get_volume (direct call)", "%s at level %r tank=%s" % (err, l, p)))
+                    continue
                 ctx.count("vol-direct")
 
                 def cb3(ans, l=l, v=v, p=p):
@@ -333,7 +351,19 @@ class C06(Check):
 
             B.ask("integrall %d %s %s %s" % (tid, F(RTOL), F(ATOL), F(1e-6)), cb_intl)
             if has_leak:
-                continue  # a leaking tank may legitimately pass min_level and "discharges" through the leak: limits are not judged
+                # a leaking tank may legitimately pass min_level and "discharges" through the leak; it cannot be pushed ABOVE max_level
+                def cb_lmax(ans, rows=rows, p=p, tn=tn, kindname=kindname, classify=classify):
+                    if ans == "ok":
+                        return
+                    i = int(ans.split()[1])
+                    a, b = rows[i - 1], rows[i]
+                    key, why = classify(a[0], b[0], "limits-max-leaking-tank")
+                    failures.append(Failure(key, "tank %s (%s, with a leak): level %.6f at t=%s above max_level %.3f by more than 2 s of its flow %.6g m3/s%s"
+                                            % (tn, kindname, b[1] - p["elev"], b[0], p["max"], a[2], why),
+                                            {"spec": spec, "tank": tn, "oracle": "tankLimitsOk(max side)", "pair": [a, b], "tank_params": p}))
+
+                B.ask("limitsmax %d %s %s" % (tid, F(SECS), F(ATOL)), cb_lmax)
+                continue
 
             def cb_lim(ans, rows=rows, p=p, tn=tn, kindname=kindname, classify=classify):
                 if ans == "ok":
@@ -399,6 +429,8 @@ class C06(Check):
         for fn, item in vlib.corpus_items("C06"):
             specs.append(("corpus/" + fn, item["spec"]))
         specs.append(("designed/volcurve-clamp", K.volcurve_clamp_spec()))
+        specs.append(("designed/curve-ends-at-max", K.curve_end_at_limit_spec("max")))
+        specs.append(("designed/curve-starts-at-min", K.curve_end_at_limit_spec("min")))
         specs.append(("designed/overflow-flag", K.overflow_spec(True)))
         for attr in ("min_level", "max_level", "elevation"):
             specs.append(("designed/rerun-same-simulator-%s" % attr, K.rerun_edit_spec(attr, False)))
